@@ -90,6 +90,15 @@ impl Vm {
             if let "quote" | "define-syntax" = proc.as_str() {
                 return Ok(expr.clone());
             }
+            if proc.as_str() == "quasiquote" {
+                return match (rest.car(), rest.cdr()) {
+                    (Some(template), Some(Cell::Nil)) => Ok(Cell::new_list(vec![
+                        proc.as_str().into(),
+                        self.transform_quasiquote(template, 0)?,
+                    ])),
+                    _ => Ok(expr.clone()),
+                };
+            }
         }
 
         if let Some(sym) = self.heap.get_sym_ref(proc) {
@@ -126,6 +135,41 @@ impl Vm {
     /// `lambda` - The lambda to emit byte code to
     /// `expr` - The expression to compile.
     /// `tail` - Tail is true if this expression is in a tail position.
+    /// Transform Quasiquote
+    ///
+    /// A quasiquote template is data, except for the operands of unquote at
+    /// nesting depth 0, which are expressions. Macro uses are expanded in those
+    /// expressions only, wherever they sit in the template (lists or vectors).
+    fn transform_quasiquote(&mut self, template: &Cell, depth: usize) -> Result<Cell, Error> {
+        match template {
+            Cell::Vector(vector) => Ok(Cell::Vector(
+                vector
+                    .iter()
+                    .map(|it| self.transform_quasiquote(it, depth))
+                    .collect::<Result<Vec<_>, _>>()?,
+            )),
+            Cell::Pair(car, cdr) => {
+                if let (true, Some(operand), Some(Cell::Nil)) = (
+                    car.is_unquote() || car.is_quasiquote(),
+                    cdr.car(),
+                    cdr.cdr(),
+                ) {
+                    let operand = match (car.is_unquote(), depth) {
+                        (true, 0) => self.transform(operand)?,
+                        (true, _) => self.transform_quasiquote(operand, depth - 1)?,
+                        (false, _) => self.transform_quasiquote(operand, depth + 1)?,
+                    };
+                    return Ok(Cell::new_list(vec![(**car).clone(), operand]));
+                }
+                Ok(Cell::new_pair(
+                    self.transform_quasiquote(car, depth)?,
+                    self.transform_quasiquote(cdr, depth)?,
+                ))
+            }
+            atom => Ok(atom.clone()),
+        }
+    }
+
     pub fn compile_expression(
         &mut self,
         lambda: &mut Lambda,
